@@ -1,6 +1,6 @@
 """Expand all subcircuits in place in a Circuit."""
 
-from jaqalpaq.error import nesting_guard
+from jaqalpaq.error import JaqalError, nesting_guard
 from jaqalpaq.core.algorithm.visitor import Visitor
 from jaqalpaq.core.circuit import Circuit
 from jaqalpaq.core.block import BlockStatement, LoopStatement
@@ -30,7 +30,7 @@ def expand_subcircuits(circuit, prepare_def=None, measure_def=None):
     prepare_def = _choose_bounding_gate(prepare_def, "prepare_all", circuit)
     measure_def = _choose_bounding_gate(measure_def, "measure_all", circuit)
 
-    visitor = SubcircuitExpander(prepare_def, measure_def)
+    visitor = SubcircuitExpander(prepare_def, measure_def, set(circuit.macros))
     return visitor.visit(circuit)
 
 
@@ -56,9 +56,10 @@ def _choose_bounding_gate(user_def, default_name, circuit):
 
 
 class SubcircuitExpander(Visitor):
-    def __init__(self, prepare_def, measure_def):
+    def __init__(self, prepare_def, measure_def, macro_names=()):
         self.prepare_def = prepare_def
         self.measure_def = measure_def
+        self.macro_names = macro_names
         self.new_macros = {}
 
     def visit_default(self, obj):
@@ -99,6 +100,13 @@ class SubcircuitExpander(Visitor):
             return self.process_non_subcircuit_block(block)
 
     def process_subcircuit(self, block):
+        for bound in (self.prepare_def, self.measure_def):
+            if bound.name in self.macro_names:
+                # Every later pass would take the bounding statement for a
+                # call of that macro
+                raise JaqalError(
+                    f"Cannot expand a subcircuit block: {bound.name} is a macro of this circuit"
+                )
         statements = [
             self.prepare_def(),
             *(self.visit(stmt) for stmt in block.statements),
